@@ -442,9 +442,10 @@ class Interp:
 
     max_unroll = 400
 
-    def loop_spec(self, node, env):
+    def loop_spec(self, node, env, it=None):
         """a loop contract applies while its function is the one under verification
-        (entered through vc.body); elsewhere the loop just runs"""
+        (entered through vc.body); elsewhere the loop just runs.  A `for` over a container of
+        concrete shape always just runs (exactly), contract or not."""
         specs = self.world.loopspecs
         if not specs:
             return None
@@ -455,19 +456,33 @@ class Interp:
         while e is not None:
             if e.func is not None and not e.is_class and isinstance(e.func, FuncV) and not e.func.is_lambda:
                 if id(e.func) in self.body_mode:
+                    if isinstance(node, ast.For) and self._concrete_shape(it):
+                        return None
                     return spec
                 # not the function under verification: its loop runs normally if it can;
                 # a `for` over a sequence of symbolic length cannot, and is cut as well
-                if isinstance(node, ast.For) and self._symbolic_iterable(node, env):
+                if isinstance(node, ast.For) and self._symbolic_value(it):
                     return spec
                 return None
             e = e.parent
         return None
 
+    def _concrete_shape(self, it):
+        """list / tuple / set / dict (view) whose elements can simply be enumerated"""
+        from .values import DictV, ListV, SetV, deref
+
+        it = deref(it)
+        if isinstance(it, self.lib.ItemsView):
+            it = it.d
+        return isinstance(it, (tuple, ListV, SetV, DictV))
+
     def _symbolic_iterable(self, node, env):
+        return self._symbolic_value(self.eval(node.iter, env))
+
+    def _symbolic_value(self, it):
         from .values import LazyDictV, LazySetV, deref
 
-        it = deref(self.eval(node.iter, env))
+        it = deref(it)
         if isinstance(it, self.lib.ItemsView):
             it = it.d
         if isinstance(it, LazySetV):
@@ -481,10 +496,11 @@ class Interp:
         return False
 
     def s_For(self, node, env):
-        spec = self.loop_spec(node, env)
-        if spec is not None:
-            return self.lib.cut_loop(self, node, env, spec)
+        # the iterable is evaluated exactly once, whichever way the loop is run
         it = self.eval(node.iter, env)
+        spec = self.loop_spec(node, env, it)
+        if spec is not None:
+            return self.lib.cut_loop(self, node, env, spec, it)
         broke = False
         for x in self.lib.iterate(self, it, node):
             self.assign_target(node.target, x, env)
